@@ -36,6 +36,93 @@ def check(ctx: Ctx) -> None:
     r5(ctx)
     r6(ctx)
     r7(ctx)
+    r8_work(ctx)
+
+
+S3_WORK = {"read_file": ("boto.get_object",), "read_file_with_etag": ("boto.get_object",), "open_file": ("boto.get_object",),
+           "write_file": ("boto.put_object",), "write_file_cas": ("boto.put_object",), "delete_file": ("boto.delete_object",),
+           "exists": ("boto.head_object",), "get_size": ("boto.head_object",), "get_modified_time": ("boto.head_object",),
+           "list_files": ("boto.get_paginator", "boto.list_objects_v2")}
+LOCAL_WORK = {"read_file": ("builtins.open", "open"), "write_file": ("os.replace",), "delete_file": ("os.remove", "os.unlink"),
+              "exists": ("os.path.exists",), "list_files": ("os.walk",), "get_size": ("os.path.getsize",),
+              "get_modified_time": ("os.path.getmtime",), "makedirs": ("os.makedirs",)}
+
+
+def r8_work(ctx: Ctx, rid: str = "C20.R8") -> None:
+    ctx.rule(rid, "every backend operation does its work: the S3 methods reach their boto primitive on every normal path of the "
+             "(retried) operation, the local ones contain their os primitive, and both list_files keep every entry they are shown "
+             "(each iteration over the listed objects reaches the append to the returned list)", 18)
+    for cname, table, must in (("S3StorageBackend", S3_WORK, True), ("LocalStorageBackend", LOCAL_WORK, False)):
+        base = ctx.prog.cls(f"{SB}.{cname}")
+        for ci in family(ctx, base):
+            for name, prims in sorted(table.items()):
+                m = ci.methods.get(name)
+                if m is None:
+                    if ci is base:
+                        raise AnalysisError(f"{cname}.{name} vanished")
+                    continue
+                scopes = [m] + list(m.nested.values())
+                hits = [(f, n) for f in scopes for n in ctx.cfg(f).calls() if n.id in ctx.cfg(f).reachable() and n.callee is not None
+                        and n.callee.kind == "prim" and n.callee.name in prims]
+                ok = bool(hits)
+                why = f"{prims[0]} present"
+                if not hits and any(set(prims) & ctx.eff.prims_reached(f_) for f_ in scopes):
+                    ok, why = True, f"{prims[0]} reached through a helper"
+                if ok and must:
+                    # no normal path through the scope that holds the primitive avoids it (a delegating override is exempt)
+                    for f, n in hits[:1]:
+                        g = ctx.cfg(f)
+                        same = [x.id for ff, x in hits if ff is f]
+                        rets = [x.id for x in g.nodes if x.kind == "return"] + [g.exit]
+                        w = find_path(g, g.entry, rets, avoid=same, labels=NORMAL)
+                        if w is not None and name not in ("exists", "list_files"):
+                            ok, why = False, f"a normal path of {f.name} completes without calling {prims[0]}"
+                if not ok and not hits and any(isinstance(x, ast.Call) and isinstance(x.func, ast.Attribute) and x.func.attr == name
+                                                and isinstance(x.func.value, ast.Call) and dotted(x.func.value.func) == "super"
+                                                for x in ast.walk(m.node)):
+                    ok, why = True, "delegates to the parent implementation"
+                ctx.ob(rid, m, f"{cname}.{name} performs {prims[0]}", None, ok,
+                       why if ok else f"{why if hits else prims[0] + ' is never called'}: the operation reports success without "
+                       "having read / written / deleted anything", text=f"{ci.name}.{name}")
+            lf = ci.methods.get("list_files")
+            if lf is None:
+                continue
+            n_keep = 0
+            for f in [lf] + list(lf.nested.values()):
+                g = ctx.cfg(f)
+                apps = [n for n in g.calls() if isinstance(n.ast, ast.Call) and isinstance(n.ast.func, ast.Attribute)
+                        and n.ast.func.attr in ("append", "extend") and any(fr.kind == "loop" for fr in n.frames)
+                        and not (n.ast.func.attr == "extend" and n.ast.args and isinstance(n.ast.args[0], (ast.GeneratorExp, ast.ListComp)))]
+                n_keep += len(apps)
+                for e_ in [n for n in g.calls() if isinstance(n.ast, ast.Call) and isinstance(n.ast.func, ast.Attribute) and n.ast.func.attr == "extend"
+                           and n.ast.args and isinstance(n.ast.args[0], (ast.GeneratorExp, ast.ListComp))]:
+                    n_keep += 1
+                    ctx.ob(rid, f, "listing keeps every entry", e_, not e_.ast.args[0].generators[-1].ifs,  # type: ignore[union-attr]
+                           "unfiltered comprehension over the listed objects", text=f"{ci.name}.list_files")
+                for r in [x for x in g.nodes if x.kind == "return" and x.ast is not None and x.ast.value is not None]:  # type: ignore[union-attr]
+                    v = r.ast.value  # type: ignore[union-attr]
+                    comp = v if isinstance(v, ast.ListComp) else (v.args[0] if isinstance(v, ast.Call) and dotted(v.func) in ("list", "sorted")
+                                                                  and v.args and isinstance(v.args[0], (ast.GeneratorExp, ast.ListComp)) else None)
+                    if comp is not None:
+                        n_keep += 1
+                        ctx.ob(rid, f, "listing keeps every entry", r, not comp.generators[-1].ifs,
+                               "comprehension whose innermost (per-object) level is unfiltered", text=f"{ci.name}.list_files")
+                for a in apps:
+                    inner = [fr.node for fr in a.frames if fr.kind == "loop"][-1]
+                    lp = next(n for n in g.nodes if n.kind == "loop" and n.ast is inner)
+                    body = edge_target(g, lp, "true")
+                    w = find_path(g, body, [lp.id], avoid=[a.id], labels=NORMAL) if body is not None else None
+                    lst = dotted(a.ast.func.value)  # type: ignore[union-attr]
+                    returned = any(r.ast is not None and r.ast.value is not None and lst in names_in(r.ast.value)  # type: ignore[union-attr]
+                                   for r in g.nodes if r.kind == "return")
+                    ctx.ob(rid, f, "listing keeps every entry", a, w is None and returned,
+                           "every listed object reaches the result" if w is None and returned else
+                           "an entry can be skipped (or the list is not what is returned): recovery and the collector act on a "
+                           "short listing", witness=ctx.path_witness(f, w), text=f"{ci.name}.list_files")
+            if n_keep == 0:
+                ctx.ob(rid, lf, "listing keeps every entry", None, False, "no statement carries the listed objects into the returned list: "
+                       "the listing is always empty - recovery finds no metadata file and the table is taken for uninitialised",
+                       text=f"{ci.name}.list_files")
 
 
 def _sig(f: FunctionInfo) -> List[Tuple[str, str, str]]:
